@@ -51,6 +51,9 @@ class Builder:
 
     def make_leaf(self, c, relation, circuit):
         cls, q = c['cls'], c['q']
+        if (q[0] + len(self.leafinfo)) % 4 == 0:
+            import numpy as np      # qubit indices as numpy integers (operations created in a loop over np.arange)
+            q = [np.int64(x) for x in q]
         kw = {}
         if relation is not None:
             kw['relation'] = relation
@@ -130,7 +133,7 @@ class Builder:
                 else:
                     rel = RelationLink(entries[r[1]], RT[r[0]])
             op = self.make_leaf(c, rel, circuit)
-            self.leafinfo.append({'cls': type(op).__name__, 'ch': [[ci.id, ci.channel.name] for ci in op.channel_identifiers]})
+            self.leafinfo.append({'cls': type(op).__name__, 'ch': [[int(ci.id), ci.channel.name] for ci in op.channel_identifiers]})
             entries.append(circuit.add(op))
         if top:
             self.flush_reps()
@@ -190,7 +193,7 @@ def observe(circuit, top_entries=None):
                 r['ref_pos'] = -(10 + top_entries[rid])        # referent is the sub-circuit added by top-level command k
             else:
                 r['ref_pos'] = pos.get(rid, -2 if r['comp'] else -1)     # -2: referent is a (nested) sub-circuit; -1: not listed at all
-        e = {'cls': type(o).__name__, 'ch': [[c.id, c.channel.name] for c in o.channel_identifiers],
+        e = {'cls': type(o).__name__, 'ch': [[int(c.id), c.channel.name] for c in o.channel_identifiers],
              's': ticks(o.start_time), 'e': ticks(o.end_time), 'd': ticks(o.duration), 'rel': r, 'sig': field_sig(o)}
         if top_entries and id(o) in top_entries:
             e['cmd'] = top_entries[id(o)]
